@@ -12,7 +12,9 @@ Inductive resA :=
 | RetA (z : Z)
 | FaultA (i : nat)        (* read outside the buffer at index i *)
 | UnderA                  (* cp[-1] with cp == start *)
-| FuelA.
+| FuelA
+| NullA                   (* a NULL result of strchr / strrchr used as a pointer *)
+| OverA (n : nat).        (* n bytes written into a local buffer that is smaller *)
 
 Definition finalA (quote : bool) : resA := RetA (if quote then E_UNQUOTED else 0%Z).
 
